@@ -23,7 +23,7 @@ func c08(c *core.Ctx) map[string]interface{} {
 	if len(m.Msgs) < 40 {
 		c.Undecided("NAS model found only %d message types (expected 45)", len(m.Msgs))
 	}
-	r8dispatch(c, m)
+	r8dispatchX(c, m)
 	r8pairs(c, m)
 	r8fresh(c)
 	r9acc(c)
